@@ -64,6 +64,6 @@ Definition gen_cfg {T} (of_bits : Z -> T) (timer_ticks : Z) : cfg T :=
     (map (fun r => match r with
                    | (n, id, rows, cap) => mk_trow n id (map (map (option_map of_bits)) rows) cap
                    end) g_table)
-    g_sys_layout g_commands g_bad g_good_prefix timer_ticks (of_bits g_pt_timegap_bits).
+    g_sys_layout g_commands g_bad g_good_prefix timer_ticks (of_bits g_pt_timegap_bits) g_pt_start_finite_check.
 
 Definition fcfg (timer_ticks : Z) : cfg F := gen_cfg f_of_bits timer_ticks.
